@@ -101,7 +101,19 @@ def run(ctx):
     tmp = os.path.join(ctx.work, "files")
     os.makedirs(tmp, exist_ok=True)
     s = ctx.vh(["conc-race", "rounds=%d" % (6 if quick else 120), "dir=" + tmp], race=True, timeout=3000,
-               env={"GORACE": "halt_on_error=0 exitcode=0"}, check=True)
+               env={"GORACE": "halt_on_error=0 exitcode=0"}, check=False)
+    if s.get("_crashed"):
+        # the run did not get to its summary: the Go runtime aborts the process on some races ("fatal error: concurrent
+        # map writes" and the like) - that is the library crashing under concurrent queries, not a harness problem
+        err = s["_stderr"]
+        fatal = [l for l in err.splitlines() if l.startswith("fatal error:")]
+        if fatal or "WARNING: DATA RACE" in err:
+            what = fatal[0] if fatal else "data race"
+            at = err.index(fatal[0]) if fatal else err.index("WARNING: DATA RACE")
+            ctx.report("the process is aborted while engines are queried concurrently: %s" % what,
+                       {"reexec": ["conc-race"], "report": err[at:at + 3000], "seed": ctx.seed}, {"cause": "fatal-concurrency-error"})
+            raise vf.Violated(what)
+        raise vf.Inconclusive("conc-race ended without a summary (rc=%s): %s" % (s["_rc"], err[-1500:]))
     races = s["_stderr"].count("WARNING: DATA RACE")
     ctx.evaluations += s["queries"]
     ctx.nontrivial += s["queries"]
